@@ -104,6 +104,8 @@ def run(job: CH, workdir: str, extra_pre=(), timeout_scale=1.0, want_twin=True):
     t_cond = max(5, int(job.timeout * timeout_scale))
     env = dict(os.environ)
     env["PYTHONPATH"] = ROOT + os.pathsep + env.get("PYTHONPATH", "")
+    if env.get("VF_REPO_SRC"):
+        env["PYTHONPATH"] = env["VF_REPO_SRC"] + os.pathsep + env["PYTHONPATH"]
     env["PYTHONHASHSEED"] = "0"
     env.pop("JAQALPAQ_VERIF", None)
     res = {"job": job.name, "file": path, "verdict": None, "twin": None, "args": None, "twin_args": None,
